@@ -394,9 +394,26 @@ def gen_bye(rng, epr, aps, hist, mdv='random'):
     return m
 
 
-def gen_announce(rng, epr, mdv, hist):
-    """Hello / ProbeMatches / ResolveMatches (with AppSequence) announcing epr with the given version."""
-    aps = rng.randint(1, 3)
+def gen_iid(rng):
+    """AppSequence/@InstanceId: xs:unsignedInt, 0 is legal (devices without a boot counter)."""
+    return rng.choice([0, 0, 1, 2, 3, 4294967295])
+
+
+def decorate_aps(rng, m, hist, allow):
+    """The other attributes of an AppSequence header (MessageNumber incl. 0, optional SequenceId) + statistics."""
+    if 'appseq' not in m:
+        return m
+    if m['appseq'] is not None:
+        m['aps_msgno'] = rng.choice([0, 1, 1, 7, 4294967295])
+        m['aps_seqid'] = rng.choice([None, None, 'urn:uuid:seq-1'])
+    hist[f"appseq:{m['kind']}:" + ('absent,option-' + ('on' if allow else 'off') if m['appseq'] is None else
+                                   'iid-0' if m['appseq'] == 0 else 'iid-large' if m['appseq'] > 1000 else 'iid-small')] += 1
+    return m
+
+
+def gen_announce(rng, epr, mdv, hist, allow=False):
+    """Hello / ProbeMatches / ResolveMatches that is acted on, announcing epr with the given version."""
+    aps = None if allow and rng.random() < 0.3 else gen_iid(rng)
     strip = [t for t in ('Types', 'XAddrs') if rng.random() < 0.2]
     k = rng.random()
     if k < 0.5:
@@ -408,6 +425,8 @@ def gen_announce(rng, epr, mdv, hist):
 
 def gen_seq(rng, hist):
     cap = rng.choice([2, 3, 5, 200, 200])
+    allow = rng.random() < 0.35               # module option allow_missing_app_sequence (default off)
+    hist['option-allow_missing_app_sequence-' + ('on' if allow else 'off')] += 1
     remote_eprs = ['urn:uuid:r1', 'urn:uuid:r2', 'urn:uuid:r3']
     local_eprs = ['urn:uuid:l1', 'urn:uuid:l2', 'urn:uuid:l3']
     events = []
@@ -432,13 +451,14 @@ def gen_seq(rng, hist):
         rel = rng.choice(['lower', 'lower', 'equal', 'higher', 'absent'])
         bye_v = {'lower': rng.choice([0, 1, hi - 1]), 'equal': hi, 'higher': min(hi + 1, 4294967295), 'absent': None}[rel]
         lo = rng.choice([0, 1, 1, hi - 1, hi])
-        plan = [gen_announce(rng, epr, hi, hist), gen_bye(rng, epr, None if rng.random() < 0.5 else rng.randint(1, 3), hist, bye_v),
-                gen_announce(rng, epr, lo, hist)]
+        plan = [gen_announce(rng, epr, hi, hist, allow), gen_bye(rng, epr, None if rng.random() < 0.5 else gen_iid(rng), hist, bye_v),
+                gen_announce(rng, epr, lo, hist, allow)]
         hist['epoch-scenario:bye-mdv-' + rel] += 1
         for m in plan:
             if rng.random() < 0.25:
                 events.append(['found', None, None])
             note_announced(m)
+            decorate_aps(rng, m, hist, allow)
             hist['msg-' + m['kind']] += 1
             events.append(['in', next_mid, m])
             used.append(next_mid)
@@ -480,7 +500,7 @@ def gen_seq(rng, hist):
                 mid = next_mid
                 next_mid += 1
             used.append(mid)
-            aps = None if rng.random() < 0.08 else rng.randint(1, 3)
+            aps = None if rng.random() < 0.15 else gen_iid(rng)
             k = rng.random()
             epr = rng.choice(remote_eprs + (['', 'urn:uuid:l1'] if rng.random() < 0.1 else []))
             strip = [t for t in ('Types', 'XAddrs') if rng.random() < 0.3]
@@ -534,9 +554,10 @@ def gen_seq(rng, hist):
                 m = {'kind': 'other'}
             hist['msg-' + m['kind']] += 1
             note_announced(m)
+            decorate_aps(rng, m, hist, allow)
             events.append(['in', mid, m])
     hist[f'cap-{cap}'] += 1
-    return {'cap': cap, 'events': events}
+    return {'cap': cap, 'allow': allow, 'events': events}
 
 
 # ----------------------------------------------------------------------------- rendering for the extracted model
@@ -664,6 +685,11 @@ def ref_matches(svc_types, svc_scopes, types, scopes, sref=None):
 
 def oracle_seq(ctx, c, tr, stats):
     cap = c['cap']
+    allow = bool(c.get('allow'))
+
+    def acted_on(m_):
+        """An announcement is acted on iff it has an AppSequence (any InstanceId, 0 included) or the option is on."""
+        return m_.get('appseq') is not None or allow
     mem = []                    # newest first, as the statement says: recently seen ids the node remembers
     n_sent = 0
     local = {}                  # epr -> (types, scopes text|None, xaddrs, mdv)
@@ -771,13 +797,16 @@ def oracle_seq(ctx, c, tr, stats):
             else:
                 if any(o['kind'] in ('ProbeMatches', 'ResolveMatches') for o in outs):
                     fail(f'{kind} message answered with {outs}', 'unsolicited-answer', k)
-                if kind == 'hello' and m.get('appseq') is not None and m['svc']['epr']:
+                if kind in ('hello', 'probematches', 'resolvematches'):
+                    stats[f'announcement:{kind}:' + ('acted-on' if acted_on(m) else 'ignored') + ',appseq-' +
+                          ('absent' if m.get('appseq') is None else 'iid-0' if m['appseq'] == 0 else 'iid-nonzero')] += 1
+                if kind == 'hello' and acted_on(m) and m['svc']['epr']:
                     note_ann(m['svc'])
-                elif kind == 'probematches' and m.get('appseq') is not None:
+                elif kind == 'probematches' and acted_on(m):
                     for s in m['matches']:
                         if s['epr']:
                             note_ann(s)
-                elif kind == 'resolvematches' and m.get('appseq') is not None and m['match'] is not None and m['match']['epr']:
+                elif kind == 'resolvematches' and acted_on(m) and m['match'] is not None and m['match']['epr']:
                     note_ann(m['match'])
                 elif kind == 'bye':
                     # "since its last Bye", literally: an acted-on Bye for the endpoint reference ends the history,
@@ -1133,7 +1162,7 @@ def run(ctx):
                if not (isinstance(st['note'], str) and st['note'].startswith('invalid-message'))]
         blob = json.dumps(evs)
         badl = [t for t, v in impl['pool_split'].items() if v == 'bad' and json.dumps(t)[1:-1] in blob]
-        lines.append(f"S 1 {c['cap']} {strs_tok(badl)} {len(evs)} " + ' '.join(ev_tok(ev) for ev in evs))
+        lines.append(f"S 1 {int(bool(c.get('allow')))} {c['cap']} {strs_tok(badl)} {len(evs)} " + ' '.join(ev_tok(ev) for ev in evs))
         tr2 = dict(tr, steps=[st for st in tr['steps'] if not (isinstance(st['note'], str) and st['note'].startswith('invalid-message'))])
         wants.append(trace_line({'events': evs}, tr2))
     if exe:
@@ -1178,7 +1207,8 @@ def run(ctx):
              'sequences: publish / clear / incoming Hello, Bye (with / without AppSequence, MetadataVersion lower / equal / higher '
              'than the recorded one, Types, Scopes, XAddrs), Probe and client-side queries (scope lists verbatim what a published / '
              'announced service has, under every rule), ProbeMatches, Resolve, ResolveMatches (missing optional parts, Scopes with a '
-             'MatchBy of their own, missing AppSequence, version 0 and 2^32-1, duplicate message ids, own messages looped back, small '
+             'MatchBy of their own, AppSequence with InstanceId 0 / small / 2^32-1, MessageNumber 0, with / without SequenceId, or absent '
+             'with the module option allow_missing_app_sequence off and on, version 0 and 2^32-1, duplicate message ids, own messages looped back, small '
              'id memories; epoch scenarios announce - Bye - announce with a restarted version) through the real message factory, parser, NetworkingThread._run_q_read '
              'and WSDiscovery; every outbound message, the final tables and the id memory compared with the model; the oracle '
              're-computes the statement (highest version since the last acted-on Bye whatever that Bye carries, exact Probe answers '
